@@ -60,7 +60,8 @@ CLAIMED = {
          "sequences (exhaustive to depth 2/3 over 52 operations, random to length 60) executed on real Continuum objects and on the extracted "
          "model with every observation compared exactly after every operation.",
          "Translator tie: Unit.__lt__, Continuum.__eq__ / __ne__ / __bool__ are translated from continuum.py (harness/gen_cont.py -> genprops/ContGen.v) and "
-         "C13_src_* re-prove them equal to unit_ltb / cont_eqb / cont_bool on every run. " +
+         "C13_src_* re-prove them equal to unit_ltb / cont_eqb / cont_bool on every run; the bodies of the container operations (add, remove, merge, "
+         "reset_bounds, iteration, properties) are read as text (genprops/ShapesGen.v) and compared by C13_src_operations. " +
          TB + "sortedcontainers / pyannote Segment are reached through the Continuum API only; names and labels are order-preserving ranks."),
  "C17": ("4/C17", "exact characterisation theorems of both checks + outcome comparison on neighbours of valid alignments",
          "Theorems: check succeeds iff uniform lengths, every continuum pair present and no pair repeated (iff exactly once on own-pair alignments); "
@@ -164,6 +165,18 @@ CLAIMED = {
 checks = []
 # source fragments translated / read from /repo on every run and the theorems re-proved against them (DESIGN 2.6); appended to the notes
 SRC_TIE = {
+ "C02": "Translator tie: the keep test over the source's cut is the model's passes (C02_src_kept_iff_passes, genprops/KernelGen.v) and the program minimises "
+        "disorders . x over 0/1 vectors under A x = 1 (C02_src_objective, genprops/IlpGen.v); re-proved on every run. ",
+ "C09": "Translator tie: the invariances are also stated and proved on the definitions translated from dissimilarity.py (C09_src_*: pos_d under shift / "
+        "scaling / delta_empty, abs_d under injective renaming, the cut under delta_empty scaling), re-proved on every run. ",
+ "C14": "Translator tie: the bodies of copy, copy_flush, merge, __add__, Continuum.__init__, corpus_from_reference and the tool's __init__ are read from the "
+        "sources (genprops/ShapesGen.v); C14_src_constructors compares them with the text the heap model was written for, on every run. ",
+ "C15": "Translator tie: the number of units, start / end of a unit, the redraw test and the gap expressions are translated from sampler.py "
+        "(genprops/StatGen.v) and proved to be the model's (C15_src_*); the statements around them are compared as text; re-proved on every run. ",
+ "C17": "Translator tie: the bodies of Alignment.check and SoftAlignment.check are read from alignment.py (genprops/ShapesGen.v); C17_src_checks compares "
+        "them with the text the model was written for, on every run. ",
+ "C18": "Translator tie: the bodies of from_csv, to_csv, from_rttm, add_textgrid, add_elan, add_annotation are read from continuum.py "
+        "(genprops/ShapesGen.v); C18_src_readers_and_writer compares them with the text the models were written for, on every run. ",
  "C01": "Translator tie: the integer program of get_best_alignment (variable domain, objective, constraints, solvers, decoding) and build_A are read from "
         "continuum.py / numba_utils.py (genprops/IlpGen.v); C01_src_program / C01_src_build_A are re-proved against them on every run. ",
  "C06": "Translator tie: the pool section of compute_gamma (samples drawn inside the argument list of p.submit, results collected in submission order, "
